@@ -130,11 +130,7 @@ impl<'a> Parser<'a> {
                     'r' => string.push(0x0d as char),
                     't' => string.push(0x09 as char),
                     'u' => {
-                        let hex: String = [self.next()?, self.next()?, self.next()?, self.next()?]
-                            .iter()
-                            .collect();
-                        let code = u16::from_str_radix(&hex, 16)
-                            .map_err(|_| self.traceback(ParseError::InvalidEscapeSequence))?;
+                        let code = self.parse_hex_escape()?;
 
                         let new_char = if let Some(new_char) = char::from_u32(code as u32) {
                             new_char
@@ -144,12 +140,7 @@ impl<'a> Parser<'a> {
                                 self.traceback(ParseError::InvalidEscapeSequence),
                             )?;
 
-                            let hex: String =
-                                [self.next()?, self.next()?, self.next()?, self.next()?]
-                                    .iter()
-                                    .collect();
-                            let code_2 = u16::from_str_radix(&hex, 16)
-                                .map_err(|_| self.traceback(ParseError::InvalidEscapeSequence))?;
+                            let code_2 = self.parse_hex_escape()?;
 
                             char::decode_utf16([code, code_2])
                                 .next()
@@ -179,6 +170,22 @@ impl<'a> Parser<'a> {
     }
 
     /// Attempt to parse an array from the character stream.
+    /// Parses the four hexadecimal digits of a `\uXXXX` escape sequence.
+    fn parse_hex_escape(&mut self) -> Result<u16, TracebackError> {
+        let mut code: u16 = 0;
+
+        for _ in 0..4 {
+            // `u16::from_str_radix` would also accept a leading sign, so convert digit by digit
+            let digit = self
+                .next()?
+                .to_digit(16)
+                .ok_or_else(|| self.traceback(ParseError::InvalidEscapeSequence))?;
+            code = code * 16 + digit as u16;
+        }
+
+        Ok(code)
+    }
+
     fn parse_array(&mut self) -> Result<Value, TracebackError> {
         self.inc_depth()?;
 
